@@ -3,7 +3,7 @@ from vlib import pipeline
 from checks import calc_common as cc
 
 CFG = "T_C43.cfg"
-UNIVERSES = ["routes"]
+UNIVERSES = ["routes", "routes6"]
 
 
 def nontrivial(evs):
